@@ -249,7 +249,7 @@ func exec(c Case) (v ev.Verdict) {
 	if err != nil {
 		return ev.Verdict{Skip: "clone"}
 	}
-	cnt := counter.ChildBuild(projsim.BuildReq{Label: label, CountHits: true, Always: c.Forced})
+	cnt := counter.ChildBuild(projsim.BuildReq{Label: label, CountHits: true, Always: c.Forced, SaveJitter: true})
 	counter.Close()
 	if cnt.ExitCode != 0 || !cnt.OK() {
 		return ev.Failf("counting-run-failed", "the un-faulted counting run of %s failed: exit=%d load=%q run=%q %s", label, cnt.ExitCode, cnt.LoadErr, cnt.RunErr, cnt.Stderr)
@@ -298,7 +298,7 @@ func exec(c Case) (v ev.Verdict) {
 		if err != nil {
 			return ev.Verdict{Skip: "clone"}
 		}
-		res := sim.ChildBuild(projsim.BuildReq{Label: label, CrashSite: h.Site, CrashLabel: h.Label, CrashHit: h.N, Always: c.Forced})
+		res := sim.ChildBuild(projsim.BuildReq{Label: label, CrashSite: h.Site, CrashLabel: h.Label, CrashHit: h.N, Always: c.Forced, SaveJitter: true})
 		where := fmt.Sprintf("crash at %s(%s)#%d in build of %s (forced=%v)", h.Site, h.Label, h.N, label, c.Forced)
 		sub := Case{M: c.M, Edits: c.Edits, FailT: -1, After: c.After, Only: &h, Forced: c.Forced}
 		if !res.Crashed {
